@@ -30,7 +30,9 @@ XSS_BITS = ["<script>alert(1)</script>", "<style>*{x:expression(1)}</style>", "<
             "<object data=javascript:alert(1)>", "<embed src=x>", "<base href=javascript:alert(1)//>", "<a href=\"data:text/html,<script>alert(1)</script>\">d</a>",
             "<a href=\"data:image/png;base64,AAAA\">ok</a>", "<p style=\"background:url(javascript:alert(1))\">", "<div onclick=x title='a\"b'>",
             "<a href=\"&#106;avascript:alert(1)\">e</a>", "<a href=\"java\x00script:alert(1)\">n</a>", "<a href=\"\x01javascript:alert(1)\">c</a>",
-            "<svg><foreignObject><p><style></p><img src=x onerror=alert(1)>", "<math><annotation-xml encoding=text/html><style><img src=x onerror=alert(1)></style>"]
+            "<svg><foreignObject><p><style></p><img src=x onerror=alert(1)>", "<math><annotation-xml encoding=text/html><style><img src=x onerror=alert(1)></style>",
+            # regression inputs of the repaired serializer finding C08-foreign-raw (COMMIT_A: foreign raw-text names are escaped)
+            "<svg><title>&lt;img src=x onerror=alert(1)&gt;</title></svg>", "<svg><desc><style>&lt;img src=x onerror=alert(1)&gt;</style></desc></svg>"]
 
 
 def browser_scheme(v):
